@@ -109,6 +109,7 @@ type tstats struct {
 	CPUStop  int64  `json:"cpu_limit_stops"`
 	MaxAlloc uint64 `json:"max_alloc_bytes"`
 	MaxCPU   int64  `json:"max_cpu_us"`
+	WallMs   int64  `json:"child_wall_ms"`
 	errCls   map[string]struct{}
 }
 
@@ -120,6 +121,7 @@ type suspect struct {
 	chunk  int
 	idx    int
 	seen   uint64
+	note   string
 }
 
 type monitor struct {
@@ -376,7 +378,11 @@ func (m *monitor) runChunk(t *target, chunk, n int) {
 	for attempt := 0; from < len(ins); attempt++ {
 		journal := fmt.Sprintf("%s.j%d", base, attempt)
 		errPath := fmt.Sprintf("%s.e%d", base, attempt)
+		t0 := time.Now()
 		recs, ended, wallKilled := m.runChild(t, batch, journal, errPath, from, "")
+		m.mu.Lock()
+		m.st(t).WallMs += time.Since(t0).Milliseconds()
+		m.mu.Unlock()
 		last := m.consume(t, chunk, ins, recs)
 		stderrB, _ := os.ReadFile(errPath)
 		os.Remove(journal)
@@ -395,7 +401,7 @@ func (m *monitor) runChunk(t *target, chunk, n int) {
 			m.mu.Lock()
 			m.st(t).CPUStop++
 			m.mu.Unlock()
-			m.addSuspect(suspect{kind: "cpu", t: t, in: ins[k], warm: ins[0], chunk: chunk, idx: k, seen: uint64(last.cpuUsed)})
+			m.addSuspect(suspect{kind: "cpu", t: t, in: ins[k], warm: ins[0], chunk: chunk, idx: k, seen: uint64(last.cpuUsed), note: tail(string(stderrB), 5000)})
 		case wallKilled:
 			r.Inconclusive(fmt.Sprintf("wall-clock watchdog (%s) killed the child of target %s at chunk %d index %d (class %s)", m.wallMax, t.name, chunk, k, ins[k].class))
 		default:
@@ -695,7 +701,7 @@ func (m *monitor) confirmSuspects() {
 					confirmed++
 				}
 			}
-			det := m.detail(s.t, s.chunk, s.idx, s.in, map[string]interface{}{"first_measurement": s.seen, "isolated_measurements": measured, "bound": map[string]interface{}{
+			det := m.detail(s.t, s.chunk, s.idx, s.in, map[string]interface{}{"first_measurement": s.seen, "stacks_at_cpu_limit": s.note, "isolated_measurements": measured, "bound": map[string]interface{}{
 				"alloc_bytes": allocLimit(len(s.in.data)), "cpu_us": cpuLimitMicros(len(s.in.data))}})
 			switch {
 			case s.kind == "alloc" && confirmed == 1:
